@@ -1,2 +1,472 @@
-def run(ctx, prog, S, M):
+"""C20 R20.5 / C07 R7.8 — PlotTypeInspector.chart_type is the inverse of the chart XML writers.
+
+For each of the chart types ChartXmlWriter can write, the writer's template is specialised to that type (abstract string
+evaluation with `self._chart_type` bound) and turned into an XML skeleton.  The inspector's own code is then interpreted
+over that skeleton by a small evaluator for the Python subset it is written in (assignments, if/return, nested helper
+functions, dict literals indexed by a value, xpath() with child steps and [@attr="v"] predicates, child-element and
+attribute access through the element classes' declarations, .get(), bool(), comparisons).  The result must be the chart
+type the writer was specialised to.  Conditional template content the inspector looks at, or any construct outside the
+subset, makes that chart type "not decided" (analysis error), never a pass.
+
+Premise: the chart data has at least one series (the series template is taken to occur once).
+"""
+
+from __future__ import annotations
+
+import ast
+import re
+
+from sa.pysrc import ClassInfo, EnumMember, Unknown, dotted
+
+
+class Undecided(Exception):
     pass
+
+
+class Raised(Exception):
+    def __init__(self, name):
+        self.name = name
+
+
+class Elem:
+    def __init__(self, node):
+        self.node = node
+
+    def __repr__(self):
+        return "<Elem %s>" % self.node.tag
+
+
+class PlotV:
+    def __init__(self, node, clsname):
+        self.node = node
+        self.clsname = clsname
+
+
+class Closure:
+    def __init__(self, fnode, env, module, selfv):
+        self.fnode, self.env, self.module, self.selfv = fnode, env, module, selfv
+
+
+class BoundMethod:
+    def __init__(self, cls, name):
+        self.cls, self.name = cls, name
+
+
+_MARK = re.compile("[\ue000\ue001]")
+
+
+class Interp:
+    def __init__(self, prog, M, S):
+        self.prog, self.M, self.S = prog, M, S
+        self.depth = 0
+
+    # -- skeleton access ------------------------------------------------------------------------------
+    def children(self, node, clark):
+        """child elements with tag `clark` (exactly, in order); content under alt/opt that matches is undecidable."""
+        out = []
+
+        def walk(n, certain):
+            for c in n.children:
+                if c.kind == "elem":
+                    if c.tag == clark:
+                        if not certain:
+                            raise Undecided("<%s> is conditional content of the template" % self.S.pfx(clark))
+                        out.append(Elem(c))
+                elif c.kind == "star":
+                    walk(c, certain)
+                else:
+                    walk(c, False)
+        walk(node, True)
+        return out
+
+    def attr(self, node, name):
+        v = node.attrs.get(name)
+        if v is None:
+            for k, x in node.attrs.items():
+                if k.split("}")[-1] == name:
+                    v = x
+        if v is None:
+            return None
+        if _MARK.search(v):
+            raise Undecided("attribute @%s of <%s> is not a constant of the template" % (name, self.S.pfx(node.tag)))
+        return v
+
+    def xpath(self, elem, expr):
+        steps = [s for s in expr.split("/") if s not in ("", ".")]
+        if expr.startswith("/") or any(s in ("..", "*") or s.startswith("@") for s in steps):
+            raise Undecided("xpath `%s` outside the subset" % expr)
+        cur = [elem]
+        for s in steps:
+            m = re.fullmatch(r"([\w]+:[\w]+)(?:\[@(\w+)=[\"']([^\"']*)[\"']\])?", s)
+            if not m:
+                raise Undecided("xpath step `%s` outside the subset" % s)
+            clark = self.prog.qn(m.group(1))
+            nxt = []
+            for e in cur:
+                for c in self.children(e.node, clark):
+                    if m.group(2) is None or self.attr(c.node, m.group(2)) == m.group(3):
+                        nxt.append(c)
+            cur = nxt
+        return cur
+
+    # -- element members ------------------------------------------------------------------------------
+    def elem_member(self, e, name):
+        tag = self.S.pfx(e.node.tag)
+        cls = self.M.class_for_tag(tag)
+        if cls is None:
+            raise Undecided("no element class registered for <%s>" % tag)
+        f = self.prog.lookup(cls, name)
+        if f is not None and f.kind in ("property", "lazyproperty"):
+            return self.call(f.node, f.module, [e], selfv=e)
+        if f is not None:
+            return Closure(f.node, {}, f.module, e)
+        for d in self.M.child_decls(cls):
+            if d.prop == name or (name.endswith("_lst") and d.prop == name[:-4]):
+                kids = []
+                for t in d.tags:
+                    kids += self.children(e.node, self.prog.qn(t))
+                if name.endswith("_lst") and d.prop != name:
+                    return kids
+                if d.kind in ("ZeroOrMore", "OneOrMore"):
+                    raise Undecided("repeating child %s accessed as a single element" % name)
+                return kids[0] if kids else None
+        for d in self.M.attr_decls(cls):
+            if d.prop == name:
+                raw = self.attr(e.node, d.attr.split(":")[-1])
+                if raw is None:
+                    dv = getattr(d, "default", None)
+                    if isinstance(dv, ast.AST):
+                        dv = self.prog.const(dv, cls.module)
+                    return None if isinstance(dv, Unknown) else dv
+                return self.convert(d, raw)
+        if name in ("tag", "text", "tail", "attrib", "nsmap", "prefix", "getparent", "getnext", "getprevious", "iter", "find", "findall",
+                    "iterchildren", "itertext", "index", "items", "keys", "values", "xml", "first_child_found_in"):
+            raise Undecided("lxml member %s of <%s> not modelled" % (name, tag))
+        raise Raised("AttributeError")  # neither declared on the element class nor part of the lxml API
+
+    def convert(self, d, raw):
+        st = getattr(d, "st", None)
+        stc = getattr(st, "cls", None)
+        names = {k.name for k in self.prog.mro(stc)} if stc is not None else set()
+        if "XsdBoolean" in names or (stc is not None and stc.name == "XsdBoolean"):
+            if raw in ("1", "true"):
+                return True
+            if raw in ("0", "false"):
+                return False
+            raise Undecided("boolean lexical %r" % raw)
+        if names & {"BaseIntType", "XsdInt", "XsdUnsignedInt", "XsdLong"}:
+            try:
+                return int(raw)
+            except ValueError:
+                raise Undecided("integer lexical %r" % raw)
+        if stc is not None and self.prog.is_xml_enum(stc) if hasattr(self.prog, "is_xml_enum") else False:
+            for m in self.prog.enum_members(stc):
+                if getattr(m, "xml", None) == raw:
+                    return m
+            raise Undecided("token %r not in %s" % (raw, stc.name))
+        return raw  # string-like simple types (enumerations of plain strings)
+
+    # -- evaluator ---------------------------------------------------------------------------------------
+    def call(self, fnode, module, args, selfv=None, closure_env=None):
+        self.depth += 1
+        if self.depth > 12:
+            raise Undecided("call depth")
+        try:
+            env = dict(closure_env or {})
+            params = [a.arg for a in fnode.args.args]
+            for p, a in zip(params, args):
+                env[p] = a
+            try:
+                r = self.block(fnode.body, env, module)
+            except _Return as ret:
+                return ret.value
+            return None
+        finally:
+            self.depth -= 1
+
+    def block(self, stmts, env, module):
+        for st in stmts:
+            if isinstance(st, ast.Expr) and isinstance(st.value, ast.Constant):
+                continue
+            if isinstance(st, ast.Assign) and len(st.targets) == 1 and isinstance(st.targets[0], ast.Name):
+                env[st.targets[0].id] = self.ev(st.value, env, module)
+            elif isinstance(st, ast.FunctionDef):
+                env[st.name] = Closure(st, env, module, None)
+            elif isinstance(st, ast.Return):
+                raise _Return(self.ev(st.value, env, module) if st.value is not None else None)
+            elif isinstance(st, ast.If):
+                self.block(st.body if self.truth(self.ev(st.test, env, module)) else st.orelse, env, module)
+            elif isinstance(st, ast.Raise):
+                exc = st.exc.func if isinstance(st.exc, ast.Call) else st.exc
+                raise Raised(dotted(exc) or "Exception")
+            elif isinstance(st, ast.Try):
+                try:
+                    self.block(st.body, env, module)
+                except Raised as r:
+                    for h in st.handlers:
+                        if h.type is None or dotted(h.type) == r.name or dotted(h.type) == "Exception":
+                            self.block(h.body, env, module)
+                            break
+                    else:
+                        raise
+            elif isinstance(st, ast.Expr):
+                self.ev(st.value, env, module)
+            elif isinstance(st, ast.Pass):
+                continue
+            else:
+                raise Undecided("statement `%s`" % ast.unparse(st)[:50])
+
+    def truth(self, v):
+        if isinstance(v, (bool, int, str, list, tuple, dict)) or v is None:
+            return bool(v)
+        if isinstance(v, (Elem, EnumMember, PlotV, Closure)):
+            if isinstance(v, Elem):
+                raise Undecided("truthiness of an element")
+            return True
+        raise Undecided("truthiness of %r" % (v,))
+
+    def ev(self, e, env, module):
+        if isinstance(e, ast.Constant):
+            return e.value
+        if isinstance(e, ast.Name):
+            if e.id in env:
+                return env[e.id]
+            c = self.prog.const(e, module)
+            if not isinstance(c, Unknown):
+                return c
+            r = self.prog.resolve(module, e.id)
+            if r is not None:
+                return r
+            if e.id in ("bool", "len", "int", "str"):
+                return ("builtin", e.id)
+            raise Undecided("name %s" % e.id)
+        if isinstance(e, ast.Attribute):
+            # constants such as ST_Grouping.STANDARD / XL.AREA
+            c = self.prog.const(e, module, env={k: v for k, v in env.items() if isinstance(v, (ClassInfo,))} if False else None)
+            if not isinstance(c, Unknown):
+                return c
+            base = self.ev(e.value, env, module)
+            return self.member(base, e.attr, module)
+        if isinstance(e, ast.Call):
+            return self.ev_call(e, env, module)
+        if isinstance(e, ast.Subscript):
+            base = self.ev(e.value, env, module)
+            if isinstance(e.slice, ast.Slice):
+                raise Undecided("slice")
+            k = self.ev(e.slice, env, module)
+            if isinstance(base, dict):
+                for kk, vv in base.items():
+                    if kk == k:
+                        return vv
+                raise Raised("KeyError")
+            if isinstance(base, (list, tuple)):
+                if not isinstance(k, int):
+                    raise Undecided("index %r" % (k,))
+                if -len(base) <= k < len(base):
+                    return base[k]
+                raise Raised("IndexError")
+            raise Undecided("subscript of %r" % (base,))
+        if isinstance(e, ast.Dict):
+            out = {}
+            for k, v in zip(e.keys, e.values):
+                kk = self.ev(k, env, module)
+                try:
+                    hash(kk)
+                except TypeError:
+                    raise Undecided("unhashable key")
+                out[kk] = self.ev(v, env, module)
+            return out
+        if isinstance(e, (ast.Tuple, ast.List)):
+            return [self.ev(x, env, module) for x in e.elts]
+        if isinstance(e, ast.IfExp):
+            return self.ev(e.body if self.truth(self.ev(e.test, env, module)) else e.orelse, env, module)
+        if isinstance(e, ast.BoolOp):
+            v = None
+            for x in e.values:
+                v = self.ev(x, env, module)
+                t = self.truth(v)
+                if isinstance(e.op, ast.And) and not t:
+                    return v
+                if isinstance(e.op, ast.Or) and t:
+                    return v
+            return v
+        if isinstance(e, ast.UnaryOp) and isinstance(e.op, ast.Not):
+            return not self.truth(self.ev(e.operand, env, module))
+        if isinstance(e, ast.Compare) and len(e.ops) == 1:
+            a, b = self.ev(e.left, env, module), self.ev(e.comparators[0], env, module)
+            op = e.ops[0]
+            if isinstance(op, (ast.Is, ast.IsNot)):
+                r = (a is b) or (a is None and b is None) or (isinstance(a, (bool, EnumMember)) and a == b and type(a) is type(b))
+                return r if isinstance(op, ast.Is) else not r
+            if isinstance(a, Elem) or isinstance(b, Elem):
+                raise Undecided("comparison of elements")
+            if isinstance(op, ast.Eq):
+                return a == b
+            if isinstance(op, ast.NotEq):
+                return a != b
+            if isinstance(op, ast.In):
+                return a in b
+            if isinstance(op, ast.NotIn):
+                return a not in b
+            raise Undecided("comparison %s" % type(op).__name__)
+        if isinstance(e, ast.BinOp) and isinstance(e.op, ast.Mod):
+            return "<formatted>"
+        raise Undecided("expression `%s`" % ast.unparse(e)[:50])
+
+    def member(self, base, name, module):
+        if isinstance(base, PlotV):
+            if name == "_element":
+                return Elem(base.node)
+            if name == "__class__":
+                return ("class-of-plot", base.clsname)
+            raise Undecided("plot.%s" % name)
+        if isinstance(base, tuple) and base and base[0] == "class-of-plot" and name == "__name__":
+            return base[1]
+        if isinstance(base, Elem):
+            return self.elem_member(base, name)
+        if isinstance(base, ClassInfo):
+            f = self.prog.lookup(base, name)
+            if f is not None:
+                return BoundMethod(base, name)
+            c = self.prog.const(ast.parse("%s.%s" % (base.name, name), mode="eval").body, base.module)
+            if not isinstance(c, Unknown):
+                return c
+            raise Undecided("%s.%s" % (base.name, name))
+        if isinstance(base, tuple) and base and base[0] == "cls":
+            return BoundMethod(base[1], name)
+        if base is None:
+            raise Raised("AttributeError")
+        raise Undecided("attribute %s of %r" % (name, base))
+
+    def ev_call(self, e, env, module):
+        f = e.func
+        if isinstance(f, ast.Attribute):
+            base = self.ev(f.value, env, module)
+            args = [self.ev(a, env, module) for a in e.args]
+            if isinstance(base, Elem):
+                if f.attr == "xpath":
+                    if not (args and isinstance(args[0], str)):
+                        raise Undecided("xpath argument")
+                    return self.xpath(base, args[0])
+                if f.attr == "get":
+                    return self.attr(base.node, args[0].split("}")[-1].split(":")[-1])
+                m = self.elem_member(base, f.attr)
+                if isinstance(m, Closure):
+                    return self.call(m.fnode, m.module, [m.selfv] + args)
+                raise Undecided("call of element member %s" % f.attr)
+            if isinstance(base, ClassInfo) or (isinstance(base, tuple) and base and base[0] == "cls"):
+                c = base if isinstance(base, ClassInfo) else base[1]
+                g = self.prog.lookup(c, f.attr)
+                if g is None:
+                    raise Undecided("%s.%s" % (c.name, f.attr))
+                return self.call(g.node, g.module, ([("cls", c)] if g.kind in ("classmethod", "method") else []) + args)
+            if isinstance(base, dict) and f.attr == "get":
+                for kk, vv in base.items():
+                    if kk == args[0]:
+                        return vv
+                return args[1] if len(args) > 1 else None
+            if base is None:
+                raise Raised("AttributeError")
+            raise Undecided("method %s of %r" % (f.attr, base))
+        fn = self.ev(f, env, module)
+        args = [self.ev(a, env, module) for a in e.args]
+        if isinstance(fn, Closure):
+            return self.call(fn.fnode, fn.module, args, closure_env=fn.env)
+        if isinstance(fn, BoundMethod):
+            g = self.prog.lookup(fn.cls, fn.name)
+            return self.call(g.node, g.module, [("cls", fn.cls)] + args)
+        if isinstance(fn, tuple) and fn and fn[0] == "builtin":
+            if fn[1] == "bool":
+                return self.truth(args[0])
+            if fn[1] == "len":
+                return len(args[0])
+            if fn[1] == "int":
+                return int(args[0])
+            if fn[1] == "str":
+                return str(args[0])
+        raise Undecided("call `%s`" % ast.unparse(e)[:50])
+
+
+class _Return(Exception):
+    def __init__(self, value):
+        self.value = value
+
+
+def plot_class_table(prog):
+    pm = prog.modules.get("pptx.chart.plot")
+    f = pm.functions.get("PlotFactory") if pm else None
+    if f is None:
+        return None
+    for n in ast.walk(f.node):
+        if isinstance(n, ast.Dict) and len(n.keys) >= 3:
+            t = {}
+            for k, v in zip(n.keys, n.values):
+                if isinstance(k, ast.Call) and dotted(k.func) == "qn" and k.args:
+                    tag = prog.const(k.args[0], pm)
+                    if isinstance(tag, str) and dotted(v):
+                        t[prog.qn(tag)] = dotted(v)
+            return t
+    return None
+
+
+def per_type_skeletons(ctx, prog, M, T=None):
+    """[(writer class, chart type, skeleton)] for every chart type of the ChartXmlWriter table."""
+    from sa.report import AnalysisError
+    from sa.strabs import S as AS
+    from sa.strabs import StrEval
+    from sa.templates import chart_writers
+    from sa.types import Types
+    from sa.xmlskel import skeleton
+
+    T = T or Types(prog, M)
+    out = []
+    for cls, types in chart_writers(prog):
+        xml = prog.lookup(cls, "xml")
+        for member in types:
+            ev = StrEval(prog, T, bindings={"self._chart_type": member})
+            v = ev.function_value(xml, cls)
+            if not isinstance(v, AS):
+                ctx.error("%s[%s]" % (cls.name, member.name), "xml does not evaluate to a string")
+                continue
+            try:
+                out.append((cls, member, skeleton(v, prog.nsmap)))
+            except AnalysisError as e:
+                ctx.error("%s[%s]" % (cls.name, member.name), str(e))
+    return out
+
+
+def run(ctx, prog, S, M, per_type, rid):
+    """per_type: [(writer ClassInfo, chart-type EnumMember, Skeleton)]"""
+    pm = prog.modules.get("pptx.chart.plot")
+    insp = pm.classes.get("PlotTypeInspector") if pm else None
+    ct = insp.methods.get("chart_type") if insp else None
+    table = plot_class_table(prog)
+    if ct is None or not table:
+        ctx.error("pptx.chart.plot", "PlotTypeInspector.chart_type / PlotFactory table not recognised")
+        return
+    n = 0
+    for cls, member, sk in per_type:
+        key = "chart-type %s" % member.name
+        root = sk.roots[0]
+        pa = [x for x in root.elems() if x.tag == prog.qn("c:plotArea")]
+        plots = [c for c in (pa[0].children if pa else []) if c.kind == "elem" and c.tag in table]
+        if len(plots) != 1:
+            ctx.error(key, "writer output has %d plot elements known to PlotFactory" % len(plots))
+            continue
+        node = plots[0]
+        it = Interp(prog, M, S)
+        n += 1
+        try:
+            got = it.call(ct.node, ct.module, [("cls", insp), PlotV(node, table[node.tag])])
+        except Undecided as e:
+            ctx.error(key, "inspector not decided on the %s template: %s" % (cls.name, e))
+            continue
+        except Raised as r:
+            ctx.violation(rid, key, "a chart written as %s makes PlotTypeInspector raise %s" % (member.name, r.name), file=ct.file, line=ct.line)
+            continue
+        if isinstance(got, EnumMember) and got.name == member.name and got.enum == member.enum:
+            ctx.ok(rid, key, sample={"written_as": member.name, "plot": S.pfx(node.tag), "inspector_returns": got.name})
+        else:
+            ctx.violation(rid, key, "a chart written as %s (%s, <%s>) is reported by chart.chart_type as %s" % (
+                member.name, cls.name, S.pfx(node.tag), getattr(got, "name", got)), file=ct.file, line=ct.line)
+    ctx.count("inspected_chart_types", n)
